@@ -12,6 +12,7 @@ import (
 
 	"github.com/named-data/ndnd/fw/core"
 	"github.com/named-data/ndnd/fw/defn"
+	"github.com/named-data/ndnd/fw/face"
 	"github.com/named-data/ndnd/fw/dispatch"
 	"github.com/named-data/ndnd/fw/fw"
 	"github.com/named-data/ndnd/fw/table"
@@ -383,8 +384,24 @@ func (r *runner) setup() {
 		if f.Link == "adhoc" {
 			sf.link = defn.AdHoc
 		}
+		modelScope := sf.scope
+		if f.Remote != "" {
+			// The face's scope as the forwarder sees it comes from the real transport constructor (which fixes it
+			// from the remote address and performs no I/O); the model's scope comes from the address by the rule
+			// "loopback peers are local" (f.Scope, set by the generator).
+			uri := defn.DecodeURIString(f.Remote)
+			if uri == nil || uri.Canonize() != nil {
+				panic("harness: bad remote URI " + f.Remote)
+			}
+			tr, err := face.MakeUnicastTCPTransport(uri, nil, face.PersistencyPersistent)
+			if err != nil {
+				panic("harness: MakeUnicastTCPTransport " + f.Remote + ": " + err.Error())
+			}
+			sf.scope = tr.Scope()
+			r.ctx.Probe("face-scope-from-real-tcp-transport")
+		}
 		dispatch.AddFace(f.ID, sf)
-		m.faces[f.ID] = &faceM{scope: sf.scope, link: sf.link, exists: true}
+		m.faces[f.ID] = &faceM{scope: modelScope, link: sf.link, exists: true}
 	}
 	for _, rt := range c.Routes {
 		table.FibStrategyTable.InsertNextHopEnc(mkName(rt.Prefix), rt.Face, rt.Cost)
@@ -482,6 +499,14 @@ func (r *runner) run() {
 		for _, v := range r.viol {
 			if strings.HasPrefix(v.Class, prop+"/") {
 				r.res.Violation = v
+				break
+			}
+			// C09, second sentence: /localhost exchanges between local faces always work. The must-forward and
+			// must-deliver rules of C02/C01 (which already take scope into account) are C09's when the packet is
+			// under /localhost.
+			if prop == "C09" && strings.HasPrefix(op.Name, "/localhost") &&
+				(v.Class == "C02/first-interest-not-forwarded" || v.Class == "C01/pending-interest-not-satisfied" || v.Class == "C07/exact-cached-fresh-not-found") {
+				r.res.Violation = &kit.Violation{Class: "C09/local-exchange-broken", Key: v.Class[4:], Step: v.Step, Detail: v.Detail}
 				break
 			}
 		}
@@ -721,6 +746,23 @@ func (r *runner) doInterest(op *Op) {
 	hadRec := ent != nil && !entCertainlyGone && ent.in[op.Face] != nil
 	exact, anyAcc := m.csAcceptable(op.Name, op.CBP, op.MBF, now)
 	csAllowed := r.sc.Config.CsServe && len(anyAcc) > 0
+	if G != nil && G.scope == defn.NonLocal && r.sc.Config.CsServe {
+		nLh := 0
+		for _, n := range anyAcc {
+			if isLocalhost(n) {
+				nLh++
+			}
+		}
+		if nLh > 0 && nLh < len(anyAcc) && !r.res.Ambiguous {
+			// which of several acceptable cached packets the lookup picks is map-iteration order inside the
+			// forwarder; one choice is stopped by the scope rule, another is sent
+			r.res.Ambiguous = true
+			r.ctx.Logf("step %d: outcome depends on which cached packet answers; log ends here", r.step)
+			if r.ctx != nil {
+				r.ctx.Log = nil
+			}
+		}
+	}
 	csRequired := r.sc.Config.CsServe && exact && freshNonce && entCertainlyGone
 	if op.MBF {
 		if e := m.cs[op.Name]; e != nil && !(now < e.staleAt) {
